@@ -293,7 +293,9 @@ def build_view(mspec: Dict[str, Any], extra_members: bool = False) -> Any:
         meth = f"    async def {py}({src}):\n        return await _RT.acall({key!r}, {bound}, {me}._ctx)\n"
     else:
         meth = f"    def {py}({src}):\n        return _RT.call({key!r}, {bound}, {me}._ctx)\n"
-    ctor_extra = "        raise RuntimeError('view constructor failed')\n" if mspec.get('ctor_raises') else ''
+    # ctor_raises: True -> RuntimeError; a string -> that builtin exception class (a KeyError / LookupError from a mapping lookup ...)
+    cr = mspec.get('ctor_raises')
+    ctor_extra = f"        raise {cr if isinstance(cr, str) else 'RuntimeError'}('view constructor failed')\n" if cr else ''
     cls_src = (
         f"class View_{py}(ViewMixin):\n"
         f"    def __init__(self, view_context=NOCTX):\n"
@@ -329,7 +331,8 @@ def register(target: Any, mspec: Dict[str, Any]) -> None:
         fn = vjs.JsonSchemaValidator().validate(fn, schema=schema)
     ctx_names = [p['name'] for p in mspec['params'] if p.get('ctx')]
     if ctx_mode == 'none':
-        target.add(fn, name=key)
+        # positional_flag: registered with positional=True although no parameter receives a context (the flag then means nothing)
+        target.add(fn, name=key, **({'positional': True} if mspec.get('positional_flag') else {}))
     else:
         target.add(fn, name=key, context=ctx_names[0], positional=(ctx_mode == 'positional'))
 
@@ -346,7 +349,7 @@ def build_dispatcher(kind: str, registry: List[Dict[str, Any]], **kwargs: Any) -
         if m.get('via') == 'dispatcher.add' and m['flavour'] not in ('view', 'aview'):
             # registered on the dispatcher itself (dispatcher.add has the same name / context / positional arguments)
             ctx_names = [p['name'] for p in m['params'] if p.get('ctx')]
-            d.add(build_function(m), m['name'], context=ctx_names[0] if ctx_names else None, positional=(m.get('ctx') == 'positional'))
+            d.add(build_function(m), m['name'], context=ctx_names[0] if ctx_names else None, positional=(m.get('ctx') == 'positional' or bool(m.get('positional_flag'))))
         else:
             register(reg, m)
     d.add_methods(reg)
@@ -367,7 +370,24 @@ def run_coro(coro: Any) -> Any:
     global _LOOP
     if _LOOP is None or _LOOP.is_closed():
         _LOOP = asyncio.new_event_loop()
-    return _LOOP.run_until_complete(coro)
+    import time
+    t0 = time.monotonic()
+    try:
+        return _LOOP.run_until_complete(asyncio.wait_for(coro, HANG_SECONDS))
+    except asyncio.TimeoutError:
+        if time.monotonic() - t0 < HANG_SECONDS - 1:
+            raise       # a TimeoutError of the code under test, not the watchdog's
+        raise DidNotReturn(f"the coroutine did not finish within {HANG_SECONDS} s (cases take milliseconds)") from None
+
+
+# A coroutine under test that never finishes (a future nobody resolves) would hang the whole check.  Cases take milliseconds, so a bound
+# four orders of magnitude above that is reported as "did not return" - an ordinary exception for the checks, which judge it like any
+# other exception escaping the call.
+HANG_SECONDS = 30
+
+
+class DidNotReturn(Exception):
+    pass
 
 
 def _after_fork() -> None:
